@@ -1,8 +1,12 @@
 def known_match(known, pid, ob_id, desc, func):
+    """A finding suppresses exactly what it names: property, then (obligation | obligation_prefix),
+    then optional substrings of the failure description / function."""
     for f in known.get("findings", []):
         if f.get("property") != pid:
             continue
         if f.get("obligation") and f["obligation"] != ob_id:
+            continue
+        if f.get("obligation_prefix") and not (ob_id or "").startswith(f["obligation_prefix"]):
             continue
         if f.get("description") and f["description"] not in (desc or ""):
             continue
